@@ -1,7 +1,9 @@
 (* model: macro *)
 (* include: wireparse *)
 (* model side of harness bin `mac` (formats: harness/src/mac.rs); float arguments arrive as the hex of std's
-   Display text.  The parsing helpers are those of run_wire.ml. *)
+   Display text.  The parsing helpers are those of run_wire.ml.  The whole process (who set the holder first,
+   the invocations one after the other) is run by the Coq model itself (Macro.run_process): the glue only
+   parses the steps and prints the observations. *)
 
 
 let show_expr = function
@@ -16,28 +18,63 @@ let parse_macro = function
 let parse_tags s =
   List.map (fun t -> let (k, v) = split2 ':' t in (unhex0 k, unhex0 v)) (split_on ',' s)
 
+(* the other client of step Z: prefix "zz", no defaults (its sink always accepts and is not observed) *)
+let other_cfg = { c_prefix = unhex0 "7a7a"; c_tags = []; c_container = None }
+
+let parse_step step =
+  match String.split_on_char '|' step with
+  | ["S"] -> PSet
+  | ["Z"] -> PSetOther
+  | [("I" | "T"); kind; arg; key; tags] ->
+    PInvoke { i_macro = parse_macro kind; i_key = unhex0 key; i_arg = parse_arg arg; i_tags = parse_tags tags }
+  | _ -> failwith ("bad step " ^ step)
+
+let parse_m prefix dtags dcid script steps =
+  let cfg = { c_prefix = unhex0 prefix; c_tags = parse_dtags dtags;
+              c_container = (if dcid = "~" then None else Some (unhex0 dcid)) } in
+  (cfg, parse_script script, List.map parse_step (String.split_on_char '%' steps))
+
+let show_obs o =
+  let ret = if o.po_panicked then "panic" else if o.po_stuck then "notype" else "unit" in
+  let em = if o.po_emitted = [] then "~" else String.concat "+" (List.map hex0 o.po_emitted) in
+  let hd = if o.po_handled = [] then "~" else String.concat "+" (List.map show_err o.po_handled) in
+  let ev = if o.po_evals = [] then "~" else String.concat "." (List.map show_expr o.po_evals) in
+  ret ^ "," ^ em ^ "," ^ hd ^ "," ^ ev
+
 let run_case line =
   match tokens line with
   | ["M"; prefix; dtags; dcid; script; steps] ->
-    let cfg = { c_prefix = unhex0 prefix; c_tags = parse_dtags dtags;
-                c_container = (if dcid = "~" then None else Some (unhex0 dcid)) } in
-    let global = ref None and script = ref (parse_script script) and out = ref [] and mine = ref true in
-    List.iter (fun step ->
-      match String.split_on_char '|' step with
-      | ["S"] -> if !global = None then global := Some cfg
-      | ["Z"] -> if !global = None then begin
-          (* another client (its own always-accepting sink, not observed by the harness) became the global one *)
-          mine := false;
-          global := Some { c_prefix = unhex0 "7a7a"; c_tags = []; c_container = None } end
-      | [("I" | "T"); kind; arg; key; tags] ->
-        let inv = { i_macro = parse_macro kind; i_key = unhex0 key; i_arg = parse_arg arg; i_tags = parse_tags tags } in
-        let s = run_macro !global inv (if !mine then !script else []) in
-        if !mine then script := s.m_script;
-        let ret = if s.m_panicked then "panic" else if s.m_stuck then "notype" else "unit" in
-        let em = if s.m_emitted = [] || not !mine then "~" else String.concat "+" (List.map hex0 s.m_emitted) in
-        let hd = if s.m_handled = [] || not !mine then "~" else String.concat "+" (List.map show_err s.m_handled) in
-        let ev = if s.m_evals = [] then "~" else String.concat "." (List.map show_expr s.m_evals) in
-        out := (ret ^ "," ^ em ^ "," ^ hd ^ "," ^ ev) :: !out
-      | _ -> failwith ("bad step " ^ step)) (String.split_on_char '%' steps);
-    String.concat "|" (List.rev !out)
+    let (cfg, sc, st) = parse_m prefix dtags dcid script steps in
+    String.concat "|" (List.map show_obs (run_process cfg other_cfg None sc st))
   | _ -> failwith ("bad mac case: " ^ line)
+
+(* the same case as a Gallina equation (kernel cross-check of the extracted macro model) *)
+let coq_header =
+  "Require Import Cadence.Base.Prelude Cadence.Model.Convert Cadence.Model.Wire Cadence.Model.Client Cadence.Model.Macro.\n"
+
+let g_bool b = if b then "true" else "false"
+let g_cfg c = Printf.sprintf "{| c_prefix := %s; c_tags := %s; c_container := %s |}"
+    (g_str c.c_prefix) (g_lst "tag" g_tag c.c_tags) (g_option g_str c.c_container)
+let g_macro = function
+  | StatsdCount -> "StatsdCount" | StatsdTime -> "StatsdTime" | StatsdGauge -> "StatsdGauge" | StatsdMeter -> "StatsdMeter"
+  | StatsdHistogram -> "StatsdHistogram" | StatsdDistribution -> "StatsdDistribution" | StatsdSet -> "StatsdSet"
+let g_pstep = function
+  | PSet -> "PSet" | PSetOther -> "PSetOther"
+  | PInvoke i -> Printf.sprintf "(PInvoke {| i_macro := %s; i_key := %s; i_arg := %s; i_tags := %s |})"
+                   (g_macro i.i_macro) (g_str i.i_key) (g_arg i.i_arg)
+                   (g_lst "(list N * list N)" (fun (k, v) -> g_pair (g_str k) (g_str v)) i.i_tags)
+let g_expr = function
+  | XKey -> "XKey" | XVal -> "XVal"
+  | XTagKey i -> "(XTagKey " ^ g_nat i ^ ")" | XTagVal i -> "(XTagVal " ^ g_nat i ^ ")"
+let g_pobs o = Printf.sprintf "{| po_panicked := %s; po_stuck := %s; po_emitted := %s; po_handled := %s; po_evals := %s |}"
+    (g_bool o.po_panicked) (g_bool o.po_stuck) (g_lst "(list N)" g_str o.po_emitted)
+    (g_lst "merror" g_merr o.po_handled) (g_lst "expr" g_expr o.po_evals)
+
+let coq_case line =
+  if String.length line > 1400 then None else
+  match tokens line with
+  | ["M"; prefix; dtags; dcid; script; steps] ->
+    let (cfg, sc, st) = parse_m prefix dtags dcid script steps in
+    Some (Printf.sprintf "run_process %s %s None %s %s = %s" (g_cfg cfg) (g_cfg other_cfg) (g_lst "sink_outcome" g_so sc)
+            (g_lst "pstep" g_pstep st) (g_lst "pobs" g_pobs (run_process cfg other_cfg None sc st)))
+  | _ -> None
